@@ -296,6 +296,13 @@ theorem C08_cleanup_sites_guarded : ∀ s ∈ Generated.ownerSites, s.guarded = 
 theorem C08_cleanup_delegations_pass_owner :
     ∀ d ∈ Generated.ownerDelegations, d.arg = "owner" ∨ d.arg = "false" ∨ d.guarded = true := by decide
 
+/-- the chain starts right: every call into the destructors from a function without an owner parameter passes a literal,
+and the `*_cleanup` operations (what `xcm_cleanup` reaches through `xcm_tp_socket_cleanup`) pass `false` -/
+theorem C08_cleanup_entries_pass_false :
+    ∀ e ∈ Generated.ownerEntries, (e.arg = "true" ∨ e.arg = "false") ∧ (e.isCleanup = true → e.arg = "false") := by decide
+
+example : (Generated.ownerEntries.filter (·.isCleanup)).length ≥ 4 := by decide
+
 /-- non-vacuity: the table is not empty and covers the control interface, the timers and the transports -/
 example : Generated.ownerSites.length ≥ 9 ∧ "remove_client" ∈ Generated.ownerFunctions ∧ "timer_mgr_destroy" ∈ Generated.ownerFunctions := by
   decide
